@@ -1,7 +1,249 @@
-//! (stub) driver module - see tools/HOWTO.md
-use crate::util::Args;
+//! C20 driver: RIPscrip and IGS graphics emulations on arbitrary command streams.
+//! One event per character (outcome, step time), the exposed pixel canvas is checked after every command terminator.
+use crate::util::{guard, panic_site, rng, Args, Out};
+use icy_engine::{ansi, igs, rip, Buffer, BufferParser, Caret};
+use rand::rngs::StdRng;
+use rand::Rng;
+use serde_json::{json, Value};
+use std::sync::atomic::{AtomicU64, Ordering};
+use std::sync::{Arc, Mutex};
+use std::time::{Duration, Instant};
 
-pub fn c20(_a: &Args) {
-    eprintln!("c20: driver not built yet");
-    std::process::exit(2);
+fn make(emu: &str) -> Box<dyn BufferParser> {
+    if emu == "rip" {
+        Box::new(rip::Parser::new(Box::<ansi::Parser>::default(), std::path::PathBuf::from("/nonexistent")))
+    } else {
+        let exe: Arc<Mutex<Box<dyn igs::CommandExecutor>>> = Arc::new(Mutex::new(Box::<igs::DrawExecutor>::default()));
+        Box::new(igs::Parser::new(exe))
+    }
+}
+
+pub struct GCase {
+    pub id: String,
+    pub emu: String,
+    pub bytes: Vec<u8>,
+}
+
+fn pic_event(p: &mut Box<dyn BufferParser>, i: usize) -> Option<Value> {
+    match guard(|| p.get_picture_data()) {
+        Ok(Some((size, data))) => Some(json!({"ev":"pic","i":i,"r":"ok","w":size.width,"h":size.height,"len":data.len()})),
+        Ok(None) => None,
+        Err(pi) => Some(json!({"ev":"pic","i":i,"r":"panic","w":0,"h":0,"len":0,"site":panic_site(&pi)})),
+    }
+}
+
+pub fn run_case(c: &GCase, evs: &mut Vec<Value>) {
+    let mut buf = Buffer::create((80, 25));
+    buf.is_terminal_buffer = true;
+    let mut caret = Caret::default();
+    let mut p = make(&c.emu);
+    evs.push(json!({"ev":"reset","case":c.id,"emu":c.emu,"n":c.bytes.len()}));
+    for (i, &b) in c.bytes.iter().enumerate() {
+        let t0 = Instant::now();
+        let res = guard(|| {
+            let r = p.print_char(&mut buf, 0, &mut caret, b as char);
+            // pending loop iterations (IGS `&` command) are executed by the caller polling get_next_action
+            let mut steps = 0;
+            while steps < 2000 {
+                match p.get_next_action(&mut buf, &mut caret, 0) {
+                    Some(_) => steps += 1,
+                    None => break,
+                }
+            }
+            (r, steps)
+        });
+        let us = t0.elapsed().as_micros() as u64;
+        let (r, site, steps) = match &res {
+            Ok((Ok(_), s)) => ("ok", None, *s),
+            Ok((Err(_), s)) => ("err", None, *s),
+            Err(pi) => ("panic", Some(panic_site(pi)), 0),
+        };
+        let mut ev = json!({"ev":"ch","i":i,"c":b,"r":r,"us":us});
+        if steps > 0 { ev["loop"] = json!(steps); }
+        if let Some(s) = site { ev["site"] = json!(s); }
+        evs.push(ev);
+        if r == "panic" {
+            break;
+        }
+        if b == b'|' || b == b'\n' || b == b':' || i + 1 == c.bytes.len() {
+            if let Some(pe) = pic_event(&mut p, i) {
+                let stop = pe["r"] == "panic";
+                evs.push(pe);
+                if stop { break; }
+            }
+        }
+    }
+}
+
+// ------------------------------------------------------------------------------------------------ generators
+const RIP_L0: &[u8] = b"wv*eEgH>cQaWmT@YXLRBCOoAVIiZPplF=Ss$#";
+const RIP_L1: &[u8] = b"MKTtECPWIBUD\x1bGRF";
+
+fn mega(r: &mut StdRng, out: &mut Vec<u8>, n: usize, alphabet: &[u8]) {
+    for _ in 0..n { out.push(alphabet[r.gen_range(0..alphabet.len())]); }
+}
+
+fn rip_token(r: &mut StdRng, out: &mut Vec<u8>) {
+    match r.gen_range(0..20) {
+        0 => out.extend(b"plain text "),
+        1 => out.extend(b"\r\n"),
+        2 => out.extend(b"\x1b[2J\x1b[1;1H"),
+        3 => out.extend(b"!|*"),
+        4 => out.extend(b"\\\r\n"),
+        _ => {
+            if r.gen_bool(0.6) || out.is_empty() { out.extend(b"!"); }
+            out.push(b'|');
+            let lvl1 = r.gen_bool(0.25);
+            if lvl1 { out.push(b'1'); out.push(RIP_L1[r.gen_range(0..RIP_L1.len())]); }
+            else if r.gen_bool(0.03) { out.extend(b"9\x1b"); }
+            else { out.push(RIP_L0[r.gen_range(0..RIP_L0.len())]); }
+            let n = match r.gen_range(0..6) { 0 => 0, 1 => r.gen_range(0..5), 2 | 3 => r.gen_range(2..14), 4 => r.gen_range(8..25), _ => r.gen_range(20..41) };
+            match r.gen_range(0..5) {
+                0 => mega(r, out, n, b"01Z"),
+                1 => mega(r, out, n, b"0123456789ABCDEFGHIJKLMNOPQRSTUVWXYZ"),
+                2 => mega(r, out, n, b"00000001"),
+                3 => mega(r, out, n, b"ZZZZZZZY9"),
+                _ => mega(r, out, n, b"0123456789ABCXYZ abc$<>[]:,.-_!|\\"),
+            }
+            if r.gen_bool(0.3) { out.extend(b"some text$DATE$"); }
+            if r.gen_bool(0.7) { out.extend(if r.gen_bool(0.5) { b"|".as_slice() } else { b"\r\n" }); }
+        }
+    }
+}
+
+const IGS_CMDS: &[u8] = b"AbBCDEFfgGqHIJkKLzMnNOPQRsStTUVWYZ<?cdilmprvwX&";
+
+fn igs_num(r: &mut StdRng) -> String {
+    match r.gen_range(0..10) {
+        0 => "-50".into(), 1 => "0".into(), 2 => "1".into(), 3 => "99999".into(), 4 => r.gen_range(0..320).to_string(), 5 => r.gen_range(0..16).to_string(),
+        6 => r.gen_range(-50..400).to_string(), 7 => "".into(), 8 => "319".into(), _ => r.gen_range(0..4).to_string(),
+    }
+}
+
+fn igs_token(r: &mut StdRng, out: &mut Vec<u8>) {
+    match r.gen_range(0..20) {
+        0 => out.extend(b"text\r\n"),
+        1 => out.extend(b"\x1b[2J"),
+        _ => {
+            if r.gen_bool(0.7) || out.is_empty() { out.extend(b"G#"); }
+            let c = IGS_CMDS[r.gen_range(0..IGS_CMDS.len())];
+            out.push(c);
+            out.push(b'>');
+            let n = r.gen_range(0..13);
+            for k in 0..n { if k > 0 { out.push(b','); } out.extend(igs_num(r).as_bytes()); }
+            if c == b'W' { out.extend(b",some text@"); }
+            if c == b'&' { out.extend(b",L,0,"); for k in 0..r.gen_range(0..8) { if k > 0 { out.push(b','); } out.extend(igs_num(r).as_bytes()); } }
+            out.push(if r.gen_bool(0.85) { b':' } else { b',' });
+            if r.gen_bool(0.2) { out.extend(b"\r\n"); }
+        }
+    }
+}
+
+pub fn gen_case(seed: u64, k: u64, emu: &str) -> GCase {
+    let mut r = rng(seed, 900_000 + k);
+    let mut bytes = vec![];
+    let n = match r.gen_range(0..10) { 0 => r.gen_range(1..3), 1..=6 => r.gen_range(3..30), _ => r.gen_range(30..150) };
+    for _ in 0..n {
+        if emu == "rip" { rip_token(&mut r, &mut bytes); } else { igs_token(&mut r, &mut bytes); }
+    }
+    if r.gen_bool(0.1) { for _ in 0..r.gen_range(1..200) { bytes.push(r.gen()); } }
+    GCase { id: format!("g{seed}-{emu}-{k}"), emu: emu.to_string(), bytes }
+}
+
+/// the exhaustive part of the quantifier: every command x every parameter-list length 0..=24 over the digits {0, 1, Z}
+/// (RIP) / 0..=12 parameters (IGS) - the table itself is exported by TLC from spec/gfx/MC_Gfx.tla (gen/gfx_table.ndjson)
+pub fn table_cases(thorough: bool, seed: u64, table: &[Value]) -> Vec<GCase> {
+    let mut out = vec![];
+    let mut r = rng(seed, 31337);
+    let digits = [b'0', b'1', b'Z'];
+    let vals = ["-50", "0", "1", "99999", "319", "5"];
+    for t in table {
+        let cmd: Vec<u8> = t["cmd"].as_array().map(|a| a.iter().map(|x| x.as_u64().unwrap_or(0) as u8).collect()).unwrap_or_default();
+        let len = t["len"].as_u64().unwrap_or(0) as usize;
+        let d = (t["digit"].as_u64().unwrap_or(1) as usize).saturating_sub(1);
+        if t["emu"] == "rip" {
+            let mut variants: Vec<Vec<u8>> = vec![vec![digits[d % 3]; len]];
+            for _ in 0..(if thorough { 4 } else { 1 }) { variants.push((0..len).map(|_| digits[r.gen_range(0..3)]).collect()); }
+            for v in variants {
+                for term in [b"|".as_slice(), b"\r\n", b""] {
+                    let mut b = b"!|".to_vec();
+                    b.extend(&cmd);
+                    b.extend(&v);
+                    b.extend(term);
+                    if term.is_empty() { b.extend(b"|#|#|#\r\n"); }
+                    out.push(GCase { id: format!("t-rip-{}-{}-{}", String::from_utf8_lossy(&cmd), len, d), emu: "rip".into(), bytes: b });
+                }
+            }
+        } else {
+            let mut variants: Vec<Vec<&str>> = vec![vec![vals[d % vals.len()]; len]];
+            for _ in 0..(if thorough { 4 } else { 1 }) { variants.push((0..len).map(|_| vals[r.gen_range(0..vals.len())]).collect()); }
+            for v in variants {
+                let mut b = b"G#".to_vec();
+                b.extend(&cmd);
+                b.push(b'>');
+                b.extend(v.join(",").as_bytes());
+                if cmd == [b'W'] { b.extend(b",txt@"); }
+                if cmd == [b'&'] { b.extend(b",L,0,1,2,3,4"); }
+                b.push(b':');
+                b.extend(b"\r\n");
+                out.push(GCase { id: format!("t-igs-{}-{}-{}", String::from_utf8_lossy(&cmd), len, d), emu: "igs".into(), bytes: b });
+            }
+        }
+    }
+    out
+}
+
+pub fn c20(a: &Args) {
+    let out_path = a.str("out", "work/C20/trace.ndjson");
+    let progress = a.str("progress", &format!("{out_path}.progress"));
+    let start = a.usize("start", 0);
+    let seed = a.u64("seed", 0);
+    let thorough = a.str("tier", "quick") == "thorough";
+    let limit_s = a.u64("case-timeout", 10);
+    let shard = a.usize("shard", 0);
+    let shards = a.usize("shards", 1);
+    crate::term::set_mem_limit(a.u64("mem-mb", 2048));
+    let table: Vec<Value> = std::fs::read_to_string(a.str("table", "gen/gfx_table.ndjson")).map(|t| t.lines().filter_map(|l| serde_json::from_str(l).ok()).collect()).unwrap_or_default();
+    let mut all = table_cases(thorough, seed, &table);
+    let n_rand = if thorough { 30000 } else { 3000 };
+    for k in 0..n_rand {
+        all.push(gen_case(seed, k, if k % 2 == 0 { "rip" } else { "igs" }));
+    }
+    let mine: Vec<&GCase> = all.iter().enumerate().filter(|(i, _)| i % shards == shard).map(|(_, c)| c).collect();
+    if a.has("dump-case") {
+        if let Some(c) = mine.get(a.usize("dump-case", 0)) {
+            println!("{}", json!({"ext":c.emu,"seed":c.id,"mut":"","bytes":c.bytes}));
+        }
+        return;
+    }
+    let case_no = Arc::new(AtomicU64::new(u64::MAX));
+    {
+        let case_no = case_no.clone();
+        let progress = progress.clone();
+        std::thread::spawn(move || {
+            let mut last = (u64::MAX, Instant::now());
+            loop {
+                std::thread::sleep(Duration::from_millis(100));
+                let c = case_no.load(Ordering::Relaxed);
+                if c == u64::MAX { continue; }
+                if c != last.0 { last = (c, Instant::now()); continue; }
+                if last.1.elapsed() > Duration::from_secs(limit_s) {
+                    let _ = std::fs::write(&progress, format!("{c} timeout\n"));
+                    unsafe { libc::_exit(3) };
+                }
+            }
+        });
+    }
+    let mut out = if start > 0 { Out::append(&out_path) } else { Out::create(&out_path) };
+    for (i, c) in mine.iter().enumerate().skip(start) {
+        let _ = std::fs::write(&progress, format!("{i} running\n"));
+        case_no.store(i as u64, Ordering::Relaxed);
+        let mut evs = vec![];
+        run_case(c, &mut evs);
+        for e in &evs { out.ev(e); }
+        out.flush();
+    }
+    case_no.store(u64::MAX, Ordering::Relaxed);
+    let _ = std::fs::write(&progress, format!("{} done\n", mine.len()));
+    eprintln!("c20: shard {shard}/{shards}: {} cases, {} events", mine.len() - start.min(mine.len()), out.n);
 }
